@@ -189,7 +189,7 @@ def build_glat_gloc(glyphs, num_attrs, version=1, long_fmt=False, extra_attr_gly
 class Rule:
     def __init__(self, pre, pattern, action, constraint=b'', name=''):
         """pattern: list of sets of glyph ids, INCLUDING the pre-context items; pre = number of pre-context items."""
-        self.pre = pre; self.pattern = [set(p) for p in pattern]; self.action = action; self.constraint = constraint; self.name = name
+        self.pre = pre; self.pattern = [set(p) for p in pattern]; self.action = action; self.constraint = constraint; self.name = name; self.sort = None   # sort key override (default: pattern length)
 
 
 def build_fsm(rules, num_glyphs):
@@ -283,7 +283,7 @@ def build_pass(P, sub_off_of_pass, num_glyphs, fm=None, tname='Silf', tbase=0):
     body = b''.join(be('HHH', *r) for r in F['ranges'])
     body += b''.join(be('H', o) for o in F['orm']) + b''.join(be('H', r) for r in F['rulemap'])
     body += be('BB', F['minpre'], F['maxpre']) + b''.join(be('H', s) for s in F['start_states'])
-    body += b''.join(be('H', len(r.pattern)) for r in rules) + bytes(r.pre for r in rules)
+    body += b''.join(be('H', len(r.pattern) if r.sort is None else r.sort) for r in rules) + bytes(r.pre for r in rules)
     body += be('B', P.get('colthresh', 0)) + be('H', len(pcon))
     body += b''.join(be('H', o) for o in ocon) + b''.join(be('H', o) for o in oact)
     for row in F['rows']: body += b''.join(be('H', t) for t in row)
